@@ -197,6 +197,10 @@ def arrayStep (s : Store) (toks : List String) : Option (Store × String) :=
       FArr.mk? dims (ND.ofFlat shape vs.toArray 0)))
   | ["full", h, ds, c] =>
     some (putArr s h (do FArr.full? (← s.dset? ds) (← parseRat? c)))
+  -- `full(dims, ndarray)` / `full_like(x, ndarray)` with an ndarray of the complete shape: a new
+  -- array holding a copy of its values
+  | ["fullnd", h, ds, v] => some (putArr s h (do FArr.mk? (← s.dset? ds) (← s.nd? v)))
+  | ["fulllike", h, x, v] => some (putArr s h (do FArr.mk? (← s.arr? x).dims (← s.nd? v)))
   | ["scalar", h, c] => some (putArr s h ((parseRat? c).map FArr.scalar))
   | ["copy", h, x] => some (putArr s h (s.arr? x))
   | "sumto" :: h :: x :: ks => some (putReduced s h x (do (← s.arr? x).sumTo? (← ks.mapM (parseDimKey? s))))
